@@ -216,8 +216,15 @@ func checkC07(c C07Case, o *Obs) error {
 			runs++
 			ferr := fault.ErrKinds[(k+mi)%len(fault.ErrKinds)]
 			fr := &fault.FailAfter{Data: text, K: k, Forever: m.forever, WithData: m.withData, Chunk: m.chunk, Err: ferr, Resume: m.resume}
-			items, over, p := collect(func(cb func(Item) bool) { codec.Reader(fr, cb) }, limit)
-			desc := fmt.Sprintf("%s: reader failing with %q after %d of %d bytes (forever=%v, error with data=%v, chunk=%d, stream carries on afterwards=%v)", c.Format, ferr, k, len(text), m.forever, m.withData, m.chunk, m.resume)
+			// every third run the failing stream sits behind the caller's own bufio.Reader (which also
+			// offers WriteTo, ReadFrom-style bulk paths to whoever looks for them)
+			var src io.Reader = fr
+			wrapped := (k+mi)%3 == 1
+			if wrapped {
+				src = bufio.NewReaderSize(fr, 16+(k*7)%4096)
+			}
+			items, over, p := collect(func(cb func(Item) bool) { codec.Reader(src, cb) }, limit)
+			desc := fmt.Sprintf("%s: reader failing with %q after %d of %d bytes (forever=%v, error with data=%v, chunk=%d, stream carries on afterwards=%v, behind the caller's bufio.Reader=%v)", c.Format, ferr, k, len(text), m.forever, m.withData, m.chunk, m.resume, wrapped)
 			if p != nil {
 				return fmt.Errorf("%s: panic %v (input %s)", desc, p, gen.Abbrev(text))
 			}
